@@ -252,6 +252,7 @@ class Engine(object):
         self._steps = 0
         self._fx = {}
         self._tyenv = {}               # frame id -> {type parameter: type argument} of inlined generic functions
+        self._closure_env = {}         # closure def path -> the bindings of the generic function that created it
         self._item_adt = {}
         self.blind = set()             # (unmodelled callee, effectful closure) pairs: analysis blind spots, fail closed
 
@@ -766,6 +767,8 @@ class Engine(object):
                     return rewrap(rv["adt"], rv["variant"], fs)
                 return self.canon_struct(rv["adt"], fs)
             if ak == "closure":
+                if self._tyenv.get(fid):
+                    self._closure_env[rv["closure"]] = self._tyenv[fid]      # a closure sees its definer's type parameters
                 return ("closure", rv["closure"], tuple(ops))
             return ("unknown", "aggregate", ak)
         if k == "repeat":
@@ -817,9 +820,14 @@ class Engine(object):
             return None
         # the source type, with its type arguments: `From<Vec<Coin>>` is not `From<Vec<MemberDiff>>`
         ty = None
+        dst = None
         if call is not None and call.get("substs"):
-            subs = [x.get("ty", "") for x in call["substs"]]
-            src = subs[0] if call.get("callee", "").endswith("Into::into") else subs[-1]     # <S as Into<T>> / <T as From<S>>
+            env = self._tyenv.get(getattr(self, "_cur_cfid", None)) or {}
+            subs = [env.get(x.get("ty", ""), x.get("ty", "")) for x in call["substs"]]
+            is_into = call.get("callee", "").endswith("Into::into")
+            src = subs[0] if is_into else subs[-1]     # <S as Into<T>> / <T as From<S>>
+            if len(subs) == 2:
+                dst = strip_generics(subs[1] if is_into else subs[0])
             ty = src if src in self._froms else None
         if ty is None:
             ty = self.pretty_type_of(st, arg)       # ADT names carry no arguments: usable only for non-generic sources
@@ -828,6 +836,12 @@ class Engine(object):
         if ty is None or ty not in self._froms:
             return None
         cands = self._froms[ty]
+        if dst is not None:
+            # the conversion's target is named by the call: only an impl for exactly that type is the one that runs
+            # (`Uint64::from(u64)` is not the workspace's `Weight: From<u64>`)
+            cands = [c for c in cands if c[0] == dst]
+            if not cands:
+                return None
         if len(cands) == 1:
             return cands[0][1]
         body = self.facts.bodies.get(st.stack[-1]) if st.stack else None
@@ -837,6 +851,25 @@ class Engine(object):
             if len(hit) == 1:
                 return hit[0]
         return None
+
+    def workspace_try_from(self, call):
+        """`x.try_into()` / `U::try_from(x)` where the workspace implements TryFrom<typeof x> for U: the impl's body (else None)"""
+        if not hasattr(self, "_tryfroms"):
+            import re as _re
+            self._tryfroms = {}
+            for p, b in self.facts.bodies.items():
+                m = _re.match(r"^<(.+) as std::convert::TryFrom<(.+)>>::try_from$", p) or None
+                if m and b.kind == "fn":
+                    self._tryfroms[(strip_generics(m.group(1)), m.group(2))] = b
+                m = _re.search(r"<impl std::convert::TryFrom<(.+)> for (.+)>::try_from$", p)
+                if m and b.kind == "fn":
+                    self._tryfroms[(strip_generics(m.group(2)), m.group(1))] = b
+        if not self._tryfroms or call is None or len(call.get("substs") or ()) != 2:
+            return None
+        env = self._tyenv.get(getattr(self, "_cur_cfid", None)) or {}
+        subs = [env.get(x.get("ty", ""), x.get("ty", "")) for x in call["substs"]]
+        src, dst = (subs[0], subs[1]) if call.get("callee", "").endswith("TryInto::try_into") else (subs[1], subs[0])
+        return self._tryfroms.get((strip_generics(dst), src))
 
     def resolve_trait_call(self, st, trait_method_dp, recv, ty=None):
         if not hasattr(self, "_impls"):
@@ -849,6 +882,8 @@ class Engine(object):
         tp = trait_method_dp.rsplit("::", 1)
         if len(tp) != 2:
             return None
+        if tp[0].startswith(("core::", "alloc::")):
+            tp[0] = "std::" + tp[0].split("::", 1)[1]       # def paths say core::, printed paths std::
         cands = self._impls.get((tp[0], tp[1]), [])
         if not cands:
             return None
@@ -1330,7 +1365,7 @@ class Engine(object):
                 return [(st, ("unknown", "closure-body-missing", f[1]))]
             if depth >= self.max_depth:
                 return [(st, ("unknown", "depth", b.path))]
-            return self.run_body(st, b, [f] + list(args), depth + 1, site)
+            return self.run_body(st, b, [f] + list(args), depth + 1, site, tyenv=self._closure_env.get(f[1]))
         if f[0] == "fnitem":
             return self.call_named(st, f[1], f[2], f[2], UNHD(f[3]), args, site, depth, None)
         return [(st, ("call", "<indirect>", (self.val(st, f),) + tuple(self.val(st, a) for a in args)))]
@@ -1362,9 +1397,14 @@ class Engine(object):
     def bind_generics(self, b, dp, t, cfid):
         """type parameters of the inlined generic function `b`, bound to the type arguments its call site names (read through
         the caller's own bindings) - lets trait methods called through a type parameter inside `b` be dispatched"""
-        if t is None or not b.generics or dp != t.get("callee_dp"):
+        if t is None or not b.generics:
             return None
-        subs = t.get("substs") or []
+        if dp == t.get("callee_dp"):
+            subs = t.get("substs") or []
+        elif dp == t.get("resolved_dp"):
+            subs = t.get("resolved_substs") or []      # a trait method resolved to the impl that runs
+        else:
+            return None
         if len(subs) != len(b.generics):
             return None
         cenv = self._tyenv.get(cfid) or {}
@@ -1408,6 +1448,19 @@ class Engine(object):
         if b is not None:
             # workspace function kept atomic at the rule's request
             return [(st, ("call", b.path, tuple(self.val(st, a) for a in args)))]
+        if t is not None and t.get("res_kind") in ("unresolved", "virtual") and t.get("substs") and cfid is not None:
+            # a trait method called through a type parameter of an inlined generic function: when the call site bound that
+            # parameter to a workspace type with its own impl, that impl runs - not the primitive standing for the trait
+            sty = (self._tyenv.get(cfid) or {}).get(t["substs"][0]["ty"])
+            arith = {"core::ops::arith::Add::add": "add", "core::ops::arith::Sub::sub": "sub", "core::ops::arith::Mul::mul": "mul",
+                     "core::ops::arith::Div::div": "div", "core::ops::arith::Rem::rem": "rem"}.get(t["callee_dp"])
+            if sty in _INT_BITS and arith and len(args) == 2:
+                # `a + b` spelled through a type parameter bound to a primitive integer: the integer's own (checked) operator
+                return [(st, fold_bin(arith, self.val(st, args[0]), self.val(st, args[1]), True))]
+            if sty and self.facts.is_workspace_type(strip_generics(sty)):
+                impl = self.resolve_trait_call(st, t["callee_dp"], None, ty=strip_generics(sty))
+                if impl is not None and depth < self.max_depth and impl.path not in st.stack:
+                    return self.run_body(st, impl, list(args), depth + 1, site)
         h = self.prims.lookup(name, trait_name)
         if h is not None:
             self._cur_cfid = cfid
